@@ -62,6 +62,9 @@ const STATEMENTS: &[(&str, &[&str])] = &[
     ("a := [1, 2, 3]", &["a"]),
     ("f := () -> any { return a~ $+ }", &["f"]),
     ("y := (f(), f())", &["y"]),
+    // a container literal with effectful elements, indexed by an int of an earlier input
+    ("x := *c", &["x"]),
+    ("y := [(c += 1), (c += 10)][x]", &["y"]),
     ("c := mut int|float 0", &["c"]),
     ("x := [y, y]", &["x"]),
     ("y := match x { v: [int] => 1, v: [int|float] => 2, v: [any] => 3, => 4, }", &["y"]),
